@@ -1906,6 +1906,14 @@ static void get_user_data (interactive_t* ip, io_event_t* evt) {
     case PORT_ASCII:
     case PORT_BINARY:
     default:
+      if (ip->text_start > 0)
+        {
+          /* left behind when process_input() raised an error in the PORT_ASCII loop below:
+           * release the lines already handed over */
+          memmove (ip->text, ip->text + ip->text_start, ip->text_end - ip->text_start);
+          ip->text_end -= ip->text_start;
+          ip->text_start = 0;
+        }
       /* No protocol overhead - use full buffer */
       text_space = MAX_TEXT - ip->text_end - 1;
       if (text_space == 0)
